@@ -193,6 +193,14 @@ class BusWorld:
         t.take()
         if hello:
             peer.hello()
+        else:
+            # a peer that never says Hello: the bus names a connection on
+            # its first message and serves calls to itself all the same; the
+            # name shows as the destination of the first reply
+            s = peer.call_bus('GetId')
+            for m in peer.received():
+                if m['fields'].get('reply_serial') == s:
+                    peer.name = m['fields'].get('destination')
         return peer
 
 
